@@ -111,9 +111,14 @@ theorem mkParent_spec (a : ParentArgs) :
     rcases seq with _ | ⟨ql, qi, qt, _ | qp⟩ <;>
     rcases par with _ | ⟨pi, pt, _ | pn⟩ <;>
     (try cases e) <;>
-    simp [cond, bind, Except.bind, pure, Except.pure, raise, outOf, specOut, specArgs, specLoc, specSeq, specPar,
+    (try by_cases h1 : st = ls) <;>
+    (try by_cases h2 : ql < le) <;>
+    (try by_cases h3 : pn < ql) <;>
+    (try by_cases h4 : pi = qp.1 ∧ pt = qp.2) <;>
+    simp [*, cond, bind, Except.bind, pure, Except.pure, raise, outOf, specOut, specArgs, specLoc, specSeq, specPar,
       checkLocation, checkParentLength, resolveParent, strandProp, parEqualsSeqPar, Spec.Validate.emptyLoc] <;>
-    (repeat' split) <;> simp_all <;> (try omega)
+    (try simp_all) <;> (try omega) <;>
+    (by_cases h5 : pi = qp.1 <;> simp_all)
 
 theorem mkParent_noInternal (a : ParentArgs) : NoInternal (mkParent a) := by
   intro c h
